@@ -40,16 +40,16 @@ ASSUMPTIONS = [
     "line statements/comments, '+' on variable tags and '{% raw +%}' are not generated (docs silent)",
 ]
 NSHARDS = {"quick": 16, "thorough": 16}
-BUDGET_S = {"quick": 18, "thorough": 520}
+BUDGET_S = {"quick": 15, "thorough": 520}
 FLOORS = {
-    "quick": {"evaluations": 45000, "distinct": 8000,
-              "counters": {"renders": 45000, "oracle_model": 45000, "oracle_nonws": 45000,
-                           "cases_n1": 12000, "cases_n2": 24000, "cases_n3": 5000,
-                           "cases_random": 6000,
-                           "rule:minus-left": 25000, "rule:minus-right": 25000,
-                           "rule:trim_blocks": 6000, "rule:lstrip_blocks": 4500,
-                           "rule:plus-cancels-trim": 3000, "rule:plus-cancels-lstrip": 3000,
-                           "raw_body_cases": 8000}},
+    "quick": {"evaluations": 42000, "distinct": 5000,
+              "counters": {"renders": 42000, "oracle_model": 42000, "oracle_nonws": 42000,
+                           "cases_n1": 12000, "cases_n2": 24000, "cases_n3": 3000,
+                           "cases_random": 4500,
+                           "rule:minus-left": 20000, "rule:minus-right": 20000,
+                           "rule:trim_blocks": 4000, "rule:lstrip_blocks": 3500,
+                           "rule:plus-cancels-trim": 2200, "rule:plus-cancels-lstrip": 2500,
+                           "raw_body_cases": 3000}},
     "thorough": {"evaluations": 500000, "distinct": 10000,
                  "counters": {"renders": 500000, "oracle_model": 500000,
                               "oracle_nonws": 500000, "cases_n1": 30000, "cases_n2": 130000,
@@ -218,7 +218,7 @@ def run(ctx):
         if not ctx.mine(idx):
             continue
         done3 += 1
-        if done3 > 100 and ctx.elapsed() > ctx.budget_s * (0.6 if quick else 0.85):
+        if done3 > (60 if quick else 100) and ctx.elapsed() > ctx.budget_s * (0.6 if quick else 0.85):
             complete3 = False
             ctx.count("n3_time_cut")
             break
@@ -239,7 +239,7 @@ def run(ctx):
     rng = ctx.rng("random")
     n_max = 4000 if quick else 150000
     i = 0
-    while ctx.more(i, n_max, floor=100):
+    while ctx.more(i, n_max, floor=80):
         i += 1
         nt = rng.choice((1, 2, 3, 4, 4, 5, 5, 6, 6, 7))
         skel = G.random_skeleton(rng, nt)
